@@ -98,6 +98,28 @@ func c01DiagImpliesError(c *Ctx, entry *ssa.Function, ro *ParserRoles) {
 		if !isB {
 			return
 		}
+		// `if first := firstDiagnostic(source); first != nil { err = ... }`
+		if hc, isHC := bo.X.(*ssa.Call); isHC && isNilConst(bo.Y) && c.firstDiagnosticHelper(calleeOf(hc)) {
+			var t *ssa.BasicBlock
+			switch bo.Op {
+			case token.NEQ:
+				t = b.Succs[0]
+			case token.EQL:
+				t = b.Succs[1]
+			}
+			if t != nil {
+				for _, x := range t.Instrs {
+					if st, isSt := x.(*ssa.Store); isSt {
+						if fv, isFV := st.Addr.(*ssa.FreeVar); isFV {
+							if pt, isP := fv.Type().(*types.Pointer); isP && pt.Elem().String() == "error" && !isNilConst(st.Val) {
+								ok = true
+							}
+						}
+					}
+				}
+			}
+			return
+		}
 		lenCall, isC := bo.X.(*ssa.Call)
 		if !isC || !isBuiltinCall(lenCall, "len") {
 			return
